@@ -388,9 +388,19 @@ def runSQL (c : Case) : CaseOut := Id.run do
     | "row" :: rest => parseRow rest
     | _ => none
   -- the harness's flush: pad an ungrouped stream to a multiple of N, then N sentinel rows
+  let having : Option Agg.Str := ((cfgVal c.cfg "having").bind (·.head?)).bind unhex
+  let hcell : Row Float := if having.isSome then [("h".toList, .int 1)] else []
   let sentRow : Row Float := match gcols with
-    | [] => [(sentCol, .int 1)]
-    | gc :: _ => [(gc, .str sentKey), (sentCol, .int 1)]
+    | [] => [(sentCol, .int 1)] ++ hcell
+    | gc :: _ => [(gc, .str sentKey), (sentCol, .int 1)] ++ hcell
+  -- HAVING <alias> > 0 on the group's results; a batch none of whose groups passes is not delivered at all
+  let passes (g : List String × List (Agg.Str × Res Float)) : Bool :=
+    match having with
+    | none => true
+    | some a => match g.2.find? (fun p => p.1 == a) with
+      | some (_, .one (.int i)) => decide (0 < i)
+      | some (_, .one (.flt x)) => x > 0
+      | _ => false
   let pad := if gcols.isEmpty then (n - userRows.length % n) % n else 0
   let all := userRows ++ List.replicate (pad + n) sentRow
   -- model of the pipeline: window chunks, then Add* / GetResults / Reset on ONE aggregator instance
@@ -406,8 +416,10 @@ def runSQL (c : Case) : CaseOut := Id.run do
     | some batch =>
       let (res, g') := processBatch cfg g batch
       g := g'
-      batchesModel := batchesModel ++ [renderResults cfg.fields res]
-      batchesSpec := batchesSpec ++ [renderResults cfg.fields (AggSpec.batchResults cfg batch)]
+      let resM := res.filter passes
+      let resS := (AggSpec.batchResults cfg batch).filter passes
+      unless resM.isEmpty do batchesModel := batchesModel ++ [renderResults cfg.fields resM]
+      unless resS.isEmpty do batchesSpec := batchesSpec ++ [renderResults cfg.fields resS]
   -- the last batch is the all-sentinel one: not an observable
   let number (bs : List (List (List String))) : List (List String) :=
     ((bs.dropLast).zipIdx).flatMap fun (lines, i) => lines.map fun l => ["b", toString i] ++ l
